@@ -360,11 +360,16 @@ theorem shrink_inv {s s' : VmState} (hinv : UpInv s) (hfree : TopFree s) (hh : s
 theorem pop_inv {s : VmState} (hinv : UpInv s) (hfree : TopFree s) : UpInv (Vm.pop.go s).2 :=
   shrink_inv hinv hfree rfl rfl (pop_count _)
 
-/-- `clear_until k` keeps the invariant when every open upvalue is below `k` -/
+/-- `clear_until k` keeps the invariant when every open upvalue is below `k` (the new height is
+    `min k height`: `clear_until` only truncates) -/
 theorem clearUntil_inv {s : VmState} (hinv : UpInv s) (k : Nat)
     (hk : ∀ a ∈ s.openUpvalues, ∀ i, upvalueSlot s.heap a = some i → i < k) :
     UpInv { s with stack := (s.stack.clearUntil k).1 } :=
-  ⟨UpCore.congr (s := s) rfl rfl hinv.core, hk⟩
+  ⟨UpCore.congr (s := s) rfl rfl hinv.core, fun a ha i hi => by
+    have h1 := hk a ha i hi
+    have h2 := hinv.bound a ha i hi
+    show i < (s.stack.clearUntil k).1.count
+    simp only [VStack.clearUntil]; split <;> omega⟩
 
 theorem go_closeUpvalue (ip : Nat) (s : VmState) :
     (Instr.closeUpvalue ip).go s =
@@ -446,25 +451,56 @@ theorem go_ret {s : VmState} {fr : Frame} (hf : s.frames.getLast? = some fr) :
 
 /-- **`Return` closes all upvalues at or above the returning frame's offset before the frame's
     slots are discarded**: each of them keeps the last value of its variable, nothing open points at
-    or above the new top, and the invariant holds again — whatever the frame looked like (`UpBound`
-    of the state before is not even needed) -/
+    or above the frame's offset, the height becomes `min offset height` (the repaired `clear_until`
+    only truncates) and the invariant holds again.  For the first three parts `UpBound` of the state
+    before is not needed; for the invariant it is needed now unless the frame's offset is at or
+    below the height (the old `clear_until` *raised* the height to the offset in the other case, so
+    the bound held for free — by exposing stale slots): `return_needs_bound` is the counter-example. -/
 theorem return_closes_frame {s : VmState} {fr : Frame} (hc : UpCore s) (hf : s.frames.getLast? = some fr) :
     (∀ u ∈ s.openUpvalues, ∀ i, upvalueSlot s.heap u = some i → fr.stackOffset ≤ i →
       (retState s fr).heap.get u = some (.upvalue (.closed (s.stack.data.getD i .nil))) ∧
       u ∉ (retState s fr).openUpvalues) ∧
     (∀ a ∈ (retState s fr).openUpvalues, ∀ i, upvalueSlot (retState s fr).heap a = some i →
       i < fr.stackOffset) ∧
-    (retState s fr).stack.count = fr.stackOffset ∧
-    UpInv (retState s fr) ∧
-    UpInv (Instr.ret.go s).2 := by
+    (retState s fr).stack.count = min fr.stackOffset s.stack.count ∧
+    (UpBound s ∨ fr.stackOffset ≤ s.stack.count →
+      UpInv (retState s fr) ∧ UpInv (Instr.ret.go s).2) := by
   have hc1 : UpCore ({ s with frames := s.frames.dropLast } : VmState) := UpCore.congr (s := s) rfl rfl hc
   have hcore : UpCore (retState s fr) :=
     UpCore.congr (s := closeState fr.stackOffset { s with frames := s.frames.dropLast }) rfl rfl
       (closeState_core hc1 _)
   have hbelow : ∀ a ∈ (retState s fr).openUpvalues, ∀ i, upvalueSlot (retState s fr).heap a = some i →
       i < fr.stackOffset := fun a ha i hi => closeState_below hc1 fr.stackOffset ha hi
-  have hinv : UpInv (retState s fr) := ⟨hcore, hbelow⟩
-  refine ⟨?_, hbelow, rfl, hinv, ?_⟩
+  have hcount : (retState s fr).stack.count = min fr.stackOffset s.stack.count := by
+    show (VStack.clearUntil s.stack fr.stackOffset).1.count = _
+    simp only [VStack.clearUntil]; split <;> omega
+  refine ⟨?_, hbelow, hcount, ?_⟩
+  rotate_left
+  · intro hb
+    have hinv : UpInv (retState s fr) := by
+      refine ⟨hcore, ?_⟩
+      intro a ha i hi
+      have h1 := hbelow a ha i hi
+      show i < (retState s fr).stack.count
+      rw [hcount]
+      rcases hb with hb | hb
+      · have ha' : a ∈ (closeState fr.stackOffset { s with frames := s.frames.dropLast }).openUpvalues := ha
+        rw [closeState_open hc1, List.mem_filter] at ha'
+        have hi' : upvalueSlot (closeState fr.stackOffset { s with frames := s.frames.dropLast }).heap a
+            = some i := hi
+        rw [upvalueSlot_congr (closeState_other hc1 fr.stackOffset (Or.inr ha'.2))] at hi'
+        have h2 := hb a ha'.1 i hi'
+        omega
+      · omega
+    refine ⟨hinv, ?_⟩
+    rw [go_ret hf]
+    split
+    · exact hinv
+    · simp only [go_bind]
+      have := push_inv hinv s.stack.last
+      rcases hgo : (push s.stack.last).go (retState s fr) with ⟨r, s'⟩
+      rw [hgo] at this
+      cases r <;> exact this
   · intro u hu i hi hle
     refine ⟨closeState_closed hc1 fr.stackOffset hu hi hle, ?_⟩
     show u ∉ (closeState fr.stackOffset { s with frames := s.frames.dropLast }).openUpvalues
@@ -473,14 +509,6 @@ theorem return_closes_frame {s : VmState} {fr : Frame} (hc : UpCore s) (hf : s.f
     have hi' : upvalueSlot ({ s with frames := s.frames.dropLast } : VmState).heap u = some i := hi
     simp only [below, hi', decide_eq_true_eq] at hb
     omega
-  · rw [go_ret hf]
-    split
-    · exact hinv
-    · simp only [go_bind]
-      have := push_inv hinv s.stack.last
-      rcases hgo : (push s.stack.last).go (retState s fr) with ⟨r, s'⟩
-      rw [hgo] at this
-      cases r <;> exact this
 
 /-! ## 1. + 4. `RegisterUpvalue`: sharing, renewal, frame-relative slots -/
 
@@ -1420,6 +1448,29 @@ example : UpInv demo7 ∧ PopsUncaptured [true, true] demo7 :=
 example : (retState demo3 ⟨0, 0, 2, none⟩).stack.count = 2 ∧ (retState demo3 ⟨0, 0, 2, none⟩).openUpvalues = [] ∧
     closedVal (retState demo3 ⟨0, 0, 2, none⟩).heap 3 = some (.int 30) ∧
     closedVal (retState demo3 ⟨0, 0, 2, none⟩).heap 4 = some (.int 40) := by decide
+
+/-- a frame whose offset (3) is above the height (1), with an open upvalue (slot 2) between the two:
+    `UpCore` holds, `UpBound` does not -/
+def retDemo : VmState :=
+  { stack := { count := 1, data := [.int 7, .int 8, .int 9, .nil, .nil] },
+    frames := [⟨0, 0, 0, none⟩, ⟨0, 0, 3, none⟩], frameCap := 4, mem := Mem.new 1000,
+    heap := { objs := [(1, .upvalue (.stack 2))], next := 2 }, openUpvalues := [1] }
+
+/-- why `return_closes_frame` needs `UpBound s ∨ offset ≤ height` for the invariant: the repaired
+    `clear_until` does not raise the height to the frame's offset any more, so an open upvalue
+    between the height and the offset stays open and above the top.  (With the old `clear_until`
+    the height became 3 here, and the stale slots 1 and 2 became values of the program.) -/
+theorem return_needs_bound :
+    UpCore retDemo ∧ retDemo.frames.getLast? = some ⟨0, 0, 3, none⟩ ∧
+    (retState retDemo ⟨0, 0, 3, none⟩).stack.count = 1 ∧
+    ¬ UpBound (retState retDemo ⟨0, 0, 3, none⟩) ∧ ¬ UpBound (Instr.ret.go retDemo).2 := by
+  refine ⟨?_, rfl, by decide, ?_, ?_⟩
+  · exact UpCore.congr (s := { retDemo with stack := { retDemo.stack with count := 3 } }) rfl rfl
+      (upInv_of_check (by decide)).core
+  · intro h
+    exact absurd (h 1 (by decide) 2 (by decide)) (by decide)
+  · intro h
+    exact absurd (h 1 (by decide) 2 (by decide)) (by decide)
 
 /-! ## 6. compiler side
 
